@@ -4,8 +4,8 @@ Copies a confirmed seeded change from /tmp/wt-<ID>/_seed into /verif/seeded/<ID>
 import json, os, shutil, sys
 pid, x, det, tier, sigs = sys.argv[1:6]
 note = sys.argv[6] if len(sys.argv) > 6 else ""
-src = "/tmp/wt-%s/_seed" % pid
-dst = os.path.join(os.path.dirname(os.path.dirname(os.path.abspath(__file__))), "seeded", "%s-%s" % (pid, x))
+src = "%s-%s/_seed" % (os.environ.get("WTPREFIX", "/tmp/wt"), pid)
+dst = os.path.join(os.path.dirname(os.path.dirname(os.path.abspath(__file__))), "seeded", "%s-%s" % (pid, os.environ.get("SEEDNAME", x)))
 os.makedirs(dst, exist_ok=True)
 shutil.copy(os.path.join(src, "patch_%s.diff" % x), os.path.join(dst, "patch.diff"))
 shutil.copy(os.path.join(src, "demo_%s.py" % x), os.path.join(dst, "demo.py"))
